@@ -6,6 +6,7 @@ pub mod kernel;
 pub mod net;
 pub mod obs;
 pub mod oracle;
+pub mod oracle2;
 pub mod plan;
 pub mod providers;
 pub mod run;
